@@ -13,6 +13,7 @@ class _World(object):
     def reset(self):
         self.local_hosts = None
         self.sockopt_fail = None
+        self.nodelay_fail = None
         self.now = 0.0
         self.calls = []        # every DelayedCall ever created (pending ones are .active())
         self.connectors = []   # every connectTCP call, in order
@@ -98,7 +99,9 @@ class Transport(object):
         self.written = []      # [(virtual time, bytes)]
 
     def setTcpNoDelay(self, x):
-        pass
+        bad = getattr(W, 'nodelay_fail', None)       # fault injection: connections on which the socket option call fails
+        if bad and (bad == 'all' or self.connector.index in bad):
+            raise OSError(22, 'Invalid argument')
 
     def getHost(self):
         # the harness may script what the socket reports per connection (W.local_hosts: address, or 'raise')
